@@ -1,3 +1,4 @@
+import Firebolt.Properties.TransBase
 import Firebolt.Properties.C01
 import Firebolt.Properties.ExecCompose
 import Firebolt.Properties.ExecNet
@@ -135,6 +136,58 @@ theorem tree_drain_terminates (cfg : Path → Cfg) (caps : Path → Nat) (disc :
 
 /-! ### influence closure: the pinned functions, and every function of the repository that writes a struct field or package
 variable they read, are unchanged (digests regenerated from /repo on every run; a difference names the functions) -/
+/-! ### The code itself, translated (`Generated/Trans.lean`, rewritten from /repo on every run by extractor/translate.go)
+
+The `translated_*` theorems are about MiniGo terms the translator produced from the current Go source: for every
+environment the translated fragment does what the hand-written model function says.  They are semantic obligations —
+a rewrite that preserves the behaviour keeps them provable, a changed comparison, bound or argument does not. -/
+section Translated
+open Firebolt.MiniGo Firebolt.TransBase
+
+/-- what a worker does at the end of its node's input -/
+def cascadeCalls (σ : Env) : List (String × List Int) :=
+  [("node.WaitGroup.Done", []), ("node.WaitGroup.Wait", []), ("node.ShutdownOnce.Do", [])] ++
+  (if σ "node.ShutdownOnce.Do#0" ≠ 0 then
+    [("shutDownNode", []), ("foreach node.Children: close", [σ "child.Ch"])] ++
+    (if σ "node.ErrorHandler" ≠ 0 then [("close", [σ "node.ErrorHandler.Ch"])] else [])
+   else [])
+
+/-- one round of a worker's loop in runNode, translated from the source.  A stop signal shuts the node down and ends the
+worker.  An event is processed.  At the end of the input (`!ok`) the worker announces itself done, **waits for all workers
+of the node**, and then exactly the one caller that sync.Once admits runs the node's Shutdown, **after that** closes every
+child's input, and after that the error handler's — then the worker ends.  This is the cascade order of the statement, read
+off the code for every environment. -/
+theorem translated_runNodeBody (σ : Env) (hs : σ "select#0" = 0 ∨ σ "select#0" = 1) :
+    obs Trans.exRunNodeBody σ =
+      if σ "select#0" = 0 then
+        ⟨[("select", [σ "node.StopCh", σ "node.Ch"]), ("shutDownNode", [])], some [], false⟩
+      else if σ "recv node.Ch#1" = 0 then
+        ⟨[("select", [σ "node.StopCh", σ "node.Ch"]), ("recv node.Ch", [])] ++ cascadeCalls σ, some [], false⟩
+      else
+        ⟨[("select", [σ "node.StopCh", σ "node.Ch"]), ("recv node.Ch", []), ("node.ProcessEvent", [σ "&event"])], none, false⟩ := by
+  rcases hs with h | h <;> by_cases h1 : σ "recv node.Ch#1" = 0 <;> by_cases h2 : σ "node.ShutdownOnce.Do#0" = 0 <;>
+  by_cases h3 : σ "node.ErrorHandler" = 0 <;>
+  minigo_simp [Trans.exRunNodeBody, cascadeCalls, h, h1, h2, h3]
+
+/-- no event is processed in a round that sees the end of the input, and Shutdown is only ever reached through the stop
+signal or through sync.Once after the wait for all workers -/
+theorem translated_shutdown_after_wait (σ : Env) (hs : σ "select#0" = 1) :
+    let cs := (obs Trans.exRunNodeBody σ).calls.map (·.1)
+    ("shutDownNode" ∈ cs →
+      ∃ pre post, cs = pre ++ ["node.WaitGroup.Wait", "node.ShutdownOnce.Do", "shutDownNode"] ++ post ∧
+        "node.ProcessEvent" ∉ cs) := by
+  rw [translated_runNodeBody σ (Or.inr hs)]
+  by_cases h1 : σ "recv node.Ch#1" = 0 <;> by_cases h2 : σ "node.ShutdownOnce.Do#0" = 0 <;>
+  by_cases h3 : σ "node.ErrorHandler" = 0 <;> simp [hs, h1, h2, h3, cascadeCalls]
+  · exact ⟨["select", "recv node.Ch", "node.WaitGroup.Done"], ["foreach node.Children: close"], by simp⟩
+  · exact ⟨["select", "recv node.Ch", "node.WaitGroup.Done"], ["foreach node.Children: close", "close"], by simp⟩
+
+/-- the node's Shutdown hook is called once per call of the closure, whether or not it fails -/
+theorem translated_shutDownNode (σ : Env) :
+    (obs Trans.exShutDownNode σ).calls = [("node.NodeProcessor.Shutdown", [])] ∧ (obs Trans.exShutDownNode σ).stuck = false := by
+  by_cases h : σ "node.NodeProcessor.Shutdown#0" = 0 <;> minigo_simp [Trans.exShutDownNode, h]
+end Translated
+
 theorem closure_unchanged : GeneratedClo.C03 = ExpectedClo.C03 := by rfl
 
 end Firebolt.C03
